@@ -4,14 +4,20 @@ S = "src/biotite/structure/"
 STUBS = ["REAL-number semantics: numpy replaced inside superimpose.py / geometry.py by vf/sx/rnp.py (exact rationals with symbolic numerators)",
          "atoms.coord() -> identity on arrays"]
 OBLIGATIONS = [
-    SX("sx_affine", "sx_c16", "ob_affine", cls="S", quick=300, thorough=900, parts={"quick": 3, "thorough": 5},
+    SX("sx_affine", "sx_c16", "ob_affine", cls="S", quick=300, thorough=900, parts={"quick": 5, "thorough": 7},
        functions=[S + "superimpose.py:AffineTransformation.__init__/apply/as_matrix", S + "superimpose.py:_expand_dims/_3d_identity/_reshape_to_3d/_multi_matmul"],
        stubs=STUBS,
-       bounds="1 model x 2 atoms as array, 1 x 1 and 2 x 2 as stack (thorough + 3 x 1, 2 x 3): rotation = ANY 3x3 matrix with entries m/2, |m| <= 8, translations and coordinates likewise, all symbolic: apply(x) == R(x + c) + t per model and == (as_matrix() @ [x,1])[:3]; last matrix row (0,0,0,1)"),
+       bounds="1 model x 2 atoms as array, 1 x 1 and 2 x 2 as stack, 2 models with ONE shared target / centre translation (a stack fitted onto a single model) (thorough + 3 x 1, 2 x 3): rotation = ANY 3x3 matrix with entries m/2, |m| <= 8, translations and coordinates likewise, all symbolic: apply(x) == R(x + c) + t per model and == (as_matrix() @ [x,1])[:3]; last matrix row (0,0,0,1)"),
     SX("sx_frame", "sx_c16", "ob_frame", cls="S", quick=300, thorough=900, parts={"quick": 6, "thorough": 8},
        functions=[S + "superimpose.py:superimpose (centring, mask handling, AffineTransformation construction)", S + "geometry.py:centroid"],
        stubs=STUBS + ["_get_rotation_matrices (SVD via LAPACK) -> an ARBITRARY symbolic 3x3 matrix per model: the claims hold for whatever rotation the solver returns"],
        bounds="3 atoms, 1 model (array) with 4 anchor masks and 2 models (stack) with 2 (4) masks, all coordinates m/2 with |m| <= 8 symbolic: fitted == R(x - centroid_mask(mobile)) + centroid_mask(fixed); masked centroid of fitted == masked centroid of fixed (optimal translation); transformation.apply(mobile) == fitted"),
+    SX("sx_outliers", "sx_c16", "ob_outliers", cls="E", quick=200, parts=2,
+       functions=[S + "superimpose.py:superimpose_without_outliers (anchor bookkeeping; real numpy)"],
+       bounds="2 point sets of 10 atoms, rigidly moved, with 0..3 strongly displaced atoms x max_iterations 1/2/10 x min_anchors 3/6/9 (72 combinations): the returned transformation is the superimposition on exactly the returned anchors (tolerance 2e-3), reproduces the returned coordinates, anchor count >= min_anchors, all atoms are anchors for max_iterations=1"),
+    SX("sx_degenerate", "sx_c16", "ob_degenerate", cls="E", quick=200, parts=4,
+       functions=[S + "superimpose.py:superimpose/_get_rotation_matrices (SVD + reflection correction; real numpy / LAPACK)"],
+       bounds="7 point sets (general, planar ring, planar irregular, collinear, two atoms, one atom, mirror-ambiguous) x 5 rotation axes x 5 angles (0, pi, pi/2, 2, pi-0.001) x with / without an extra atom outside the anchor set: rotation orthonormal with determinant +1, rigid copy fitted back with RMSD < 2e-3, the off-plane atom of planar anchors returns to its place (no mirror image)"),
 ]
-EXPLANATION = "C16 (algebraic clauses only): the returned transformation equals its 4x4 matrix form, reproduces the fitted coordinates, acts model-wise, and centres the anchor atoms."
+EXPLANATION = "C16 (algebraic clauses symbolically; properness / rigid copies / anchor bookkeeping on concrete point sets): the returned transformation equals its 4x4 matrix form, reproduces the fitted coordinates, acts model-wise, and centres the anchor atoms."
 ASSUMPTIONS = ["real-number semantics; the optimality / properness of the rotation (SVD + reflection correction) is NOT decided"]
